@@ -34,4 +34,17 @@ AfterSeq(S) == SetToSeq(S)
 DocsGen3 == {Doc("G", [k \in 1..3 |-> T(Titles3[k], AfterSeq(f[k]))]) : f \in [1..3 -> SUBSET {"a", "b", "c"}]}
 DocsGen2 == {Doc("G", [k \in 1..2 |-> T(Titles3[k], AfterSeq(f[k]))]) : f \in [1..2 -> SUBSET {"a", "b"}]}
 DocsAll == DocsSmall \cup DocsGen3 \cup DocsGen2
+
+\* larger documents for the random walks over large configurations: a chain of seven, a
+\* task after four others (given out of order), a diamond with forward references, a
+\* five-cycle, and a small one so that several plans fit into one walk
+T7 == <<"t1", "t2", "t3", "t4", "t5", "t6", "t7">>
+DocsBig == {
+  Doc("Chain", [k \in 1..7 |-> T(T7[k], IF k = 1 THEN <<>> ELSE <<T7[k - 1]>>)]),
+  Doc("Fan", [k \in 1..6 |-> T(T7[k], IF k = 6 THEN <<"t4", "t1", "t3", "t2">> ELSE <<>>)]),
+  Doc("Diamond", <<T("t1", <<"t2", "t3">>), T("t2", <<"t4">>), T("t3", <<"t4">>), T("t4", <<>>),
+                   T("t5", <<"t1">>), T("t6", <<"t5", "t2">>), T("t7", <<"t6", "t3", "t4", "t1">>)>>),
+  Doc("Cycle5", [k \in 1..5 |-> T(T7[k], <<T7[(k % 5) + 1]>>)]),
+  Doc("P", <<T("a", <<>>), T("b", <<"a">>)>>)
+}
 =============================================================================
